@@ -29,6 +29,11 @@ impl Rng {
     pub fn pick<'a, T>(&mut self, xs: &'a [T]) -> &'a T {
         &xs[self.below(xs.len() as u64) as usize]
     }
+    /// `n` random bytes with `n` drawn uniformly below `bound`.
+    pub fn bytes_below(&mut self, bound: u64) -> Vec<u8> {
+        let n = self.below(bound) as usize;
+        self.bytes(n)
+    }
     pub fn bytes(&mut self, n: usize) -> Vec<u8> {
         (0..n).map(|_| self.next() as u8).collect()
     }
